@@ -721,6 +721,9 @@ func genC10(w *bufio.Writer, rng *hx.Rng, tier string) {
 	// ---- the real Start -> Assigned -> consume -> Commit path, topic lists with duplicates
 	genC10Start(w, rng, thorough)
 
+	// ---- the real plugin end to end against an in-process group broker, stopped while records are in flight
+	genC10Stop(w, rng, thorough)
+
 	// ---- the real pipeline in spread mode
 	npipe := 700
 	if thorough {
